@@ -403,6 +403,7 @@ func typedRewrites(fset *token.FileSet, f *ast.File, info *types.Info, ed *edito
 		return fmt.Sprintf("%s:%d", relFile(root, fn), p.Line)
 	}
 	skipRecv := map[*ast.UnaryExpr]bool{}
+	skipSend := map[*ast.SendStmt]bool{}
 	// recvElem: element type of the channel being received from, as written in this file.
 	recvElem := func(u *ast.UnaryExpr) string {
 		tv, ok := info.Types[u.X]
@@ -480,8 +481,24 @@ func typedRewrites(fset *token.FileSet, f *ast.File, info *types.Info, ed *edito
 				if !ok || tv.Type == nil {
 					return true
 				}
-				if _, isChan := tv.Type.Underlying().(*types.Chan); isChan {
-					report.ChanOps = append(report.ChanOps, where(x)+" range over channel")
+				if ch, isChan := tv.Type.Underlying().(*types.Chan); isChan {
+					// for v := range ch  ->  for { simv, simok := Recv2(ch); if !simok { break }; v := simv.(T) ...
+					report.SyncSites = append(report.SyncSites, where(x)+" range over channel")
+					t := types.TypeString(ch.Elem(), qual)
+					hdr := "for { simv, simok := " + rtImportName + ".Recv2(" + text(x.X) + "); if !simok { break }; _ = simv;"
+					if x.Key != nil {
+						kn := text(x.Key)
+						if kn != "_" {
+							if x.Tok == token.ASSIGN {
+								hdr += " " + kn + ", _ = simv.(" + t + ");"
+							} else {
+								hdr += " " + kn + ", _ := simv.(" + t + "); _ = " + kn + ";"
+							}
+						}
+					}
+					ed.replace(off(x.For), off(x.Body.Lbrace)+1, hdr)
+					visit(x.Body)
+					return false
 				}
 				mt, ok := tv.Type.Underlying().(*types.Map)
 				if !ok {
@@ -668,7 +685,13 @@ func typedRewrites(fset *token.FileSet, f *ast.File, info *types.Info, ed *edito
 					ed.replace(endArgs, off(call.Rparen)+1, suffix)
 				}
 			case *ast.SendStmt:
-				report.ChanOps = append(report.ChanOps, where(x)+" send")
+				if skipSend[x] {
+					break
+				}
+				report.SyncSites = append(report.SyncSites, where(x)+" send")
+				ed.insert(off(x.Pos()), rtImportName+".Send(")
+				ed.replace(off(x.Arrow), off(x.Arrow)+2, ",")
+				ed.insert(off(x.End()), ")")
 			case *ast.ExprStmt:
 				if u, ok := x.X.(*ast.UnaryExpr); ok && u.Op == token.ARROW && !skipRecv[u] {
 					skipRecv[u] = true
@@ -705,6 +728,9 @@ func typedRewrites(fset *token.FileSet, f *ast.File, info *types.Info, ed *edito
 						ast.Inspect(cc.Comm, func(m ast.Node) bool {
 							if u, ok := m.(*ast.UnaryExpr); ok && u.Op == token.ARROW {
 								skipRecv[u] = true
+							}
+							if sd, ok := m.(*ast.SendStmt); ok {
+								skipSend[sd] = true
 							}
 							return true
 						})
@@ -1164,6 +1190,86 @@ func Go(f func()) {
 // simulated run that have not finished yet.
 func RealSpawned() int32 { return atomic.LoadInt32(&realSpawned) }
 
+// Unbuffered channels cannot rendezvous when both sides only poll, so a simulated send
+// on an unbuffered channel parks its value in a table until a simulated receive takes it.
+type pendEnt struct {
+	ch    uintptr
+	v     interface{}
+	used  bool
+	taken bool
+}
+
+var pendTab [64]pendEnt
+
+//go:norace
+func pendPut(ch uintptr, v interface{}) int {
+	for i := range pendTab {
+		if !pendTab[i].used {
+			pendTab[i] = pendEnt{ch: ch, v: v, used: true}
+			return i
+		}
+	}
+	return -1
+}
+
+//go:norace
+func pendTake(ch uintptr) (interface{}, int) {
+	for i := range pendTab {
+		if pendTab[i].used && !pendTab[i].taken && pendTab[i].ch == ch {
+			pendTab[i].taken = true
+			return pendTab[i].v, i
+		}
+	}
+	return nil, -1
+}
+
+//go:norace
+func pendTaken(i int) bool { return pendTab[i].taken }
+
+//go:norace
+func pendFree(i int) { pendTab[i] = pendEnt{} }
+
+//go:norace
+func pendReset() { pendTab = [64]pendEnt{} }
+
+// Send replaces ch <- v.
+func Send(ch interface{}, v interface{}) {
+	rv := reflect.ValueOf(ch)
+	var val reflect.Value
+	if v == nil {
+		val = reflect.Zero(rv.Type().Elem())
+	} else {
+		val = reflect.ValueOf(v)
+		if et := rv.Type().Elem(); val.Type() != et && val.Type().ConvertibleTo(et) {
+			val = val.Convert(et)
+		}
+	}
+	if !simulating() {
+		rv.Send(val)
+		return
+	}
+	if rv.Cap() > 0 {
+		for !rv.TrySend(val) {
+			if b := Blocked; b != nil {
+				b()
+			}
+		}
+		return
+	}
+	slot := pendPut(rv.Pointer(), val.Interface())
+	if slot < 0 {
+		rv.Send(val) // table full: give up control rather than invent semantics
+		return
+	}
+	raceReleaseMerge(unsafe.Pointer(&pendTab[slot]))
+	for !pendTaken(slot) {
+		if b := Blocked; b != nil {
+			b()
+		}
+	}
+	pendFree(slot)
+}
+
 // Recv2 is a channel receive that never blocks the thread under simulation: it polls
 // and gives way while nothing is there.
 func Recv2(ch interface{}) (interface{}, bool) {
@@ -1173,6 +1279,12 @@ func Recv2(ch interface{}) (interface{}, bool) {
 		return v.Interface(), ok
 	}
 	for {
+		if rv.Cap() == 0 {
+			if v, slot := pendTake(rv.Pointer()); slot >= 0 {
+				raceAcquire(unsafe.Pointer(&pendTab[slot]))
+				return v, true
+			}
+		}
 		v, ok := rv.TryRecv()
 		if v.IsValid() {
 			return v.Interface(), ok
@@ -1387,6 +1499,7 @@ func RegisterReset(f func()) { resets = append(resets, f) }
 func ResetAll() {
 	wgReset()
 	poolReset()
+	pendReset()
 	for _, f := range resets {
 		f()
 	}
